@@ -42,9 +42,38 @@ fn enumerate_vote_sequences(ctx: &mut Ctx) {
     }
 }
 
+/// C18 far history: the statement quantifies over any finalized slot. The sender's highest finalized slot is
+/// pushed beyond two epochs by two hopping fast-finalization certificates (each inside the window that is
+/// open at that moment); a receiver starting from an empty state applies its own admission window to the
+/// bundle. Whatever this shows is classified like any other report.
+fn far_history(ctx: &mut Ctx) {
+    use crate::poolsim::Op;
+    use crate::wire::CK;
+    let mut rng = ctx.rng("c18-far");
+    let stakes = vec![1u64; 5];
+    let ep = make_epoch(&mut rng, &stakes, "equal");
+    let cfg = RunCfg { late_links: false, jitter: 0.0, dup_votes: 0.0, cert_frac: 0.0, block_frac: 0.0, standstill_every: 0, waiters: false, check_bundle_replay: true };
+    let all: Vec<usize> = (0..5).collect();
+    let e = alpenglow::types::SLOTS_PER_EPOCH;
+    for (hop1, hop2) in [(2 * e - 1, 2 * e + 5), (e, 2 * e - 1), (2 * e - 1, 4 * e - 3)] {
+        let ops = vec![
+            Op::Cert(CK::FastFinal, hop1, Some([0x11; 32]), all.clone(), vec![]),
+            Op::Standstill,
+            Op::Cert(CK::FastFinal, hop2, Some([0x22; 32]), all.clone(), vec![]),
+            Op::Standstill,
+        ];
+        run_ops(ctx, "C18", &mut rng, &ep, 0, &ops, &cfg, "far-history");
+        ctx.count("far-history-runs");
+        ctx.distinct(format!("far-history:{}:{}", hop1 / e, hop2 / e));
+    }
+}
+
 pub fn run(ctx: &mut Ctx, focus: &str, quick_total: u64, thorough_total: u64) -> Result<(), String> {
     if focus == "C04" {
         enumerate_vote_sequences(ctx);
+    }
+    if focus == "C18" && ctx.shard == 0 {
+        far_history(ctx);
     }
     let mut rng = ctx.rng("worlds");
     let iters = ctx.iters(quick_total, thorough_total);
